@@ -13,6 +13,28 @@ func UnmarshalSelectionSet(b []byte) (SelectionSet, error) {
 
 	result := make([]Selection, 0)
 	for _, item := range tmp {
+		// The encodings carry no type tag, and a Field decodes from any object without
+		// error, so tell the three kinds apart by the keys only they have.
+		var keys map[string]json.RawMessage
+		if err := json.Unmarshal(item, &keys); err == nil {
+			_, hasAlias := keys["Alias"]
+			_, hasTypeCondition := keys["TypeCondition"]
+			_, hasName := keys["Name"]
+			if !hasAlias && hasTypeCondition {
+				var inlineFragment InlineFragment
+				if err := json.Unmarshal(item, &inlineFragment); err == nil {
+					result = append(result, &inlineFragment)
+					continue
+				}
+			}
+			if !hasAlias && !hasTypeCondition && hasName {
+				var fragmentSpread FragmentSpread
+				if err := json.Unmarshal(item, &fragmentSpread); err == nil {
+					result = append(result, &fragmentSpread)
+					continue
+				}
+			}
+		}
 		var field Field
 		if err := json.Unmarshal(item, &field); err == nil {
 			result = append(result, &field)
